@@ -16,6 +16,16 @@ def main():
     path = sys.argv[1]
     d = json.load(open(path))
     layer = d["sig"]["layer"]
+    if layer == "conc":
+        from harness import sched, core
+        from harness.props import c20
+        dec = {int(k): v for k, v in d["script"]["decisions"].items()}
+        hist, _ = sched.execute(d["sig"]["variant"], d["script"]["threads"], dec)
+        print(json.dumps(hist, indent=1)[:6000])
+        rep = core.Report("C20", "replay", 0)
+        c20.validate(rep, [hist], "replay")
+        print("rejects:", [(r.clause) for r in rep.rejects])
+        sys.exit(1 if rep.rejects else 0)
     mod, fn, tmod, tcfg, vkey = LAYERS[layer]
     variant = {vkey: d["sig"]["variant"]}
     if d.get("detail", {}).get("fmt"):
